@@ -63,6 +63,12 @@ NodeDeclaredOK ==
      (G.maprows[r].type = "d" /\ G.maprows[r].asset \in 1..NAs /\ "nodes" \in DOMAIN Tr.assets[G.maprows[r].asset])
         => G.maprows[r].node \in ToSet(Tr.assets[G.maprows[r].asset].nodes)
 
+\* ... and an asset that dispatches at all dispatches at every node it was declared with
+NodesCoveredOK ==
+  \A k \in 1..NAs : ("nodes" \in DOMAIN Tr.assets[k]) =>
+     LET D == { r \in 1..Len(G.maprows) : G.maprows[r].type = "d" /\ G.maprows[r].asset = k } IN
+     D # {} => \A n \in ToSet(Tr.assets[k].nodes) : \E r \in D : G.maprows[r].node = n
+
 \* the asset's restrictions are embedded on its own variables
 RowsEmbeddedOK ==
   LET emb == UNION { { [cls |-> a.rows[j].cls, b |-> a.rows[j].b,
@@ -101,7 +107,7 @@ FixOK ==
     ELSE F.l1[g + 1] = F.l0[g + 1] /\ F.u1[g + 1] = F.u0[g + 1]
 
 Clauses == << <<"size", SizeOK>>, <<"label_range", LabelRangeOK>>, <<"step_on_grid", StepOK>>, <<"bounds_nan", BoundsOK>>,
-              <<"owner", OwnerOK>>, <<"label_injective", PhiInjective>>, <<"row_owned", EveryRowOwned>>, <<"node_declared", NodeDeclaredOK>>,
+              <<"owner", OwnerOK>>, <<"label_injective", PhiInjective>>, <<"row_owned", EveryRowOwned>>, <<"node_declared", NodeDeclaredOK>>, <<"nodes_covered", NodesCoveredOK>>,
               <<"rows_embedded", RowsEmbeddedOK>>, <<"unmapped_inert", UnmappedInertOK>>, <<"nodal_rows", NodalOK>>,
               <<"fix_window", FixOK>> >>
 FirstFailed == LET bad == SelectSeq(Clauses, LAMBDA c : ~c[2]) IN IF bad = <<>> THEN "" ELSE bad[1][1]
